@@ -424,8 +424,8 @@ def _validation_skippable(pl: Pipeline, st: Stage, val: Stage) -> Optional[str]:
 # ------------------------------------------------------------------------ R4
 
 
-def rule_r4(ctx) -> None:
-    ctx.rule("C01-R4", "'Balance' is returned only under key-set equality and all-values equality of the two compositions; compare_dicts is its only producer", 2)
+def rule_r4(ctx, rule_id: str = "C01-R4") -> None:
+    ctx.rule(rule_id, "'Balance' is returned only under key-set equality and all-values equality of the two compositions; compare_dicts is its only producer", 2)
     prog = ctx.prog
     f = prog.func(COMPARE)
     ctx.require(len(f.params) == 2, "compare_dicts no longer takes exactly two compositions")
@@ -443,11 +443,11 @@ def rule_r4(ctx) -> None:
             keys_eq = keys_eq or k
             vals_eq = vals_eq or v
         ok = keys_eq and vals_eq
-        ctx.instance("C01-R4", "compare_dicts: return 'Balance' under %s" % [unparse(c) if p else "not(%s)" % unparse(c) for c, p in guards], f.loc(r), ok=ok)
+        ctx.instance(rule_id, "compare_dicts: return 'Balance' under %s" % [unparse(c) if p else "not(%s)" % unparse(c) for c, p in guards], f.loc(r), ok=ok)
         if not keys_eq:
-            ctx.finding("C01-R4", "RSMIComparator.compare_dicts:Balance:key-sets", f.loc(r), "'Balance' is returned without the two key sets being compared for equality")
+            ctx.finding(rule_id, "RSMIComparator.compare_dicts:Balance:key-sets", f.loc(r), "'Balance' is returned without the two key sets being compared for equality")
         if not vals_eq:
-            ctx.finding("C01-R4", "RSMIComparator.compare_dicts:Balance:values", f.loc(r), "'Balance' is returned without all values being compared for equality (==)")
+            ctx.finding(rule_id, "RSMIComparator.compare_dicts:Balance:values", f.loc(r), "'Balance' is returned without all values being compared for equality (==)")
     ctx.require(n_ret >= 1, "compare_dicts never returns 'Balance'")
     # sole producer
     for g in prog.package_functions():
@@ -464,9 +464,9 @@ def rule_r4(ctx) -> None:
             elif isinstance(n, ast.Call) and isinstance(n.func, ast.Attribute) and n.func.attr == "append" and n.args and const_str(n.args[0]) == "Balance":
                 hit = n
             if hit is not None:
-                ctx.instance("C01-R4", "other producer of 'Balance': %s" % g.qualname, g.loc(hit), ok=False)
-                ctx.finding("C01-R4", "%s:produces-Balance" % g.qualname.split("synrbl.", 1)[-1], g.loc(hit), "a second producer of the 'Balance' verdict exists outside compare_dicts: %s" % unparse(hit)[:70])
-    ctx.instance("C01-R4", "package scan: producers of the literal 'Balance'", "", ok=True)
+                ctx.instance(rule_id, "other producer of 'Balance': %s" % g.qualname, g.loc(hit), ok=False)
+                ctx.finding(rule_id, "%s:produces-Balance" % g.qualname.split("synrbl.", 1)[-1], g.loc(hit), "a second producer of the 'Balance' verdict exists outside compare_dicts: %s" % unparse(hit)[:70])
+    ctx.instance(rule_id, "package scan: producers of the literal 'Balance'", "", ok=True)
 
 
 def _equality_kind(f: Func, c: ast.AST, p: bool, a: str, b: str) -> Tuple[bool, bool]:
